@@ -339,6 +339,27 @@ theorem interpolate2_state_independent (o : Obj2) (tx : Tbl o.ox) (ty : Tbl o.oy
     | error e => rfl
     | ok j => rfl
 
+
+/-! ## A pool of objects (copies, assignments, destruction across objects)
+
+    In the model objects are values: a copy is the same value in another slot.  History
+    independence across objects is therefore by construction — every slot holds an `Obj` reached by
+    some history from a constructed object, and `history_independent` / `run_WF` apply to it. -/
+
+/-- after a copy (construction or assignment) slot `j` holds exactly the value of slot `i`, so it
+    answers every query as slot `i` does; no other slot changes -/
+theorem pool_copy (tables : Array (List Rat × List Rat)) (pool : Pool) (i j : Nat) (o : Obj)
+    (hj : j < pool.size) (hi : pool.getD i none = some o) :
+    poolStep tables pool (.copyConstruct i j) = .ok (.unit, pool.set! j (some o)) ∧
+    poolStep tables pool (.copyAssign i j) = .ok (.unit, pool.set! j (some o)) ∧
+    (pool.set! j (some o)).getD j none = some o ∧
+    ∀ k, k ≠ j → (pool.set! j (some o)).getD k none = pool.getD k none := by
+  refine ⟨by simp [poolStep, hj, hi], by simp [poolStep, hj, hi], by simp [Array.getD, hj], fun k hk => ?_⟩
+  by_cases h : k < pool.size
+  · have hne : j ≠ k := Ne.symm hk
+    simp [Array.getD, h, hne]
+  · simp [Array.getD, h]
+
 /-! ## Non-vacuity -/
 
 /-- the zig-zag table of the fix commit's message meets the hypotheses of every theorem above -/
